@@ -51,6 +51,7 @@ VARIABLES
   finalSt,    \* state in the last Snapshot
   openTx,     \* <<run, transition>> whose STARTED run event has no DONE_* counterpart yet
   unclosed,   \* ... and whose transition completed nevertheless
+  openRun,    \* a run was announced (START_ACTIVITY STARTED run event) and no end-of-run event followed yet
   \* strict
   mode,       \* "sync" | "lost"
   w,          \* watcher: "none" | "unsub" | "select" | "armed" | "fired" | "stop" | "exited"
@@ -61,8 +62,8 @@ VARIABLES
   nsent, nrecv
 
 tvars == <<l, scn, case, phase, nviol, place, dead, lastSt, expectSt, inflight, critFault, critSeen, gates, started, ended,
-           finalSt, openTx, unclosed, mode, w, lk, envM, reM, srvErr, nsent, nrecv>>
-mvars == <<place, dead, lastSt, expectSt, inflight, critFault, critSeen, gates, started, ended, finalSt, openTx, unclosed>>
+           finalSt, openTx, unclosed, openRun, mode, w, lk, envM, reM, srvErr, nsent, nrecv>>
+mvars == <<place, dead, lastSt, expectSt, inflight, critFault, critSeen, gates, started, ended, finalSt, openTx, unclosed, openRun>>
 svars == <<mode, w, lk, envM, reM, srvErr, nsent, nrecv>>
 
 Line == Trace[l]
@@ -183,7 +184,7 @@ TReset ==
   /\ scn' = Line.scn /\ case' = Line.model /\ phase' = "run"
   /\ place' = <<>> /\ dead' = {} /\ lastSt' = "?" /\ expectSt' = "?" /\ inflight' = "none"
   /\ critFault' = FALSE /\ critSeen' = FALSE /\ gates' = {} /\ started' = {} /\ ended' = {} /\ finalSt' = "?"
-  /\ openTx' = {} /\ unclosed' = {}
+  /\ openTx' = {} /\ unclosed' = {} /\ openRun' = FALSE
   /\ mode' = "sync" /\ w' = "none" /\ lk' = "none" /\ envM' = "?" /\ reM' = "norun" /\ srvErr' = FALSE
   /\ nsent' = 0 /\ nrecv' = 0
   /\ UNCHANGED nviol
@@ -195,13 +196,13 @@ TAccept ==
                    THEN LET r == CHOOSE x \in {Line.tasks[i] : i \in 1..Len(Line.tasks)} : x.class = c
                         IN <<r.agent, r.executor>>
                    ELSE place[c]]
-  /\ UNCHANGED <<scn, case, phase, nviol, dead, lastSt, expectSt, inflight, critFault, critSeen, gates, started, ended, finalSt, openTx, unclosed>>
+  /\ UNCHANGED <<scn, case, phase, nviol, dead, lastSt, expectSt, inflight, critFault, critSeen, gates, started, ended, finalSt, openTx, unclosed, openRun>>
   /\ Keep
 
 TApi ==
   /\ Line.ev = "Api"
   /\ inflight' = IF Line.call = "control" /\ phase = "run" THEN OpOf(Line.op) ELSE inflight
-  /\ UNCHANGED <<scn, case, phase, nviol, place, dead, lastSt, expectSt, critFault, critSeen, gates, started, ended, finalSt, openTx, unclosed>>
+  /\ UNCHANGED <<scn, case, phase, nviol, place, dead, lastSt, expectSt, critFault, critSeen, gates, started, ended, finalSt, openTx, unclosed, openRun>>
   /\ Keep
 
 TReply ==
@@ -220,7 +221,7 @@ TReply ==
             \* for the lock may have been recorded before the reply line
             /\ (IF Line.st = Dst(OpOf(Line.op)) THEN Keep ELSE ObserveS(Line.st))
        ELSE UNCHANGED <<nviol, lastSt, expectSt, inflight>> /\ Keep
-  /\ UNCHANGED <<scn, case, phase, place, dead, critFault, critSeen, gates, started, ended, finalSt, openTx, unclosed>>
+  /\ UNCHANGED <<scn, case, phase, place, dead, critFault, critSeen, gates, started, ended, finalSt, openTx, unclosed, openRun>>
 
 TFault ==
   /\ Line.ev = "Fault"
@@ -229,7 +230,7 @@ TFault ==
      IN /\ dead' = IF Line.kind = "INTERNAL_ERROR" THEN dead ELSE dead \cup H
         /\ critSeen' = (critSeen \/ hc)
         /\ critFault' = (critFault \/ (hc /\ Line.ok /\ Line.kind \in StatementKinds /\ lastSt \in Live))
-  /\ UNCHANGED <<scn, case, phase, nviol, place, lastSt, expectSt, inflight, gates, started, ended, finalSt, openTx, unclosed>>
+  /\ UNCHANGED <<scn, case, phase, nviol, place, lastSt, expectSt, inflight, gates, started, ended, finalSt, openTx, unclosed, openRun>>
   /\ Keep
 
 THook ==
@@ -241,20 +242,20 @@ THook ==
                      /\ ((Line.what = "GO_ERROR" /\ Line.st = "ERROR") \/ (Line.what = "STOP_ACTIVITY" /\ Line.st = "CONFIGURED"))
                   THEN unclosed \cup {x \in openTx : x[2] = Line.what}
                   ELSE unclosed
-  /\ UNCHANGED <<scn, case, phase, nviol, place, dead, lastSt, expectSt, inflight, critFault, critSeen, gates, started, ended, finalSt, openTx>>
+  /\ UNCHANGED <<scn, case, phase, nviol, place, dead, lastSt, expectSt, inflight, critFault, critSeen, gates, started, ended, finalSt, openTx, openRun>>
 
 TObserve ==
   /\ Line.ev = "Observe"
   /\ ObserveM(Line.st)
   /\ ObserveS(Line.st)
-  /\ UNCHANGED <<scn, case, phase, place, dead, expectSt, inflight, critFault, critSeen, gates, started, ended, finalSt, openTx, unclosed>>
+  /\ UNCHANGED <<scn, case, phase, place, dead, expectSt, inflight, critFault, critSeen, gates, started, ended, finalSt, openTx, unclosed, openRun>>
 
 TSnapshot ==
   /\ Line.ev = "Snapshot"
   /\ ObserveM(Line.st)
   /\ ObserveS(Line.st)
   /\ finalSt' = Line.st
-  /\ UNCHANGED <<scn, case, phase, place, dead, expectSt, inflight, critFault, critSeen, gates, started, ended, openTx, unclosed>>
+  /\ UNCHANGED <<scn, case, phase, place, dead, expectSt, inflight, critFault, critSeen, gates, started, ended, openTx, unclosed, openRun>>
 
 TRunEv ==
   /\ Line.ev = "RunEv"
@@ -264,12 +265,18 @@ TRunEv ==
   /\ openTx' = IF phase # "run" \/ Line.tx \notin {"STOP_ACTIVITY", "GO_ERROR"} THEN openTx
                ELSE IF Line.status = "STARTED" THEN openTx \cup {<<Line.rn, Line.tx>>}
                ELSE openTx \ {<<Line.rn, Line.tx>>}
+  \* a run is open from the event that announces it (the number is drawn, the start time set) - also when START then fails;
+  \* the end-of-run event may carry the number 0 (StartActivityTransition zeroes it on failure)
+  /\ openRun' = IF phase # "run" THEN openRun
+                ELSE IF Line.tx = "START_ACTIVITY" /\ Line.status = "STARTED" THEN TRUE
+                ELSE IF Line.tx \in {"STOP_ACTIVITY", "GO_ERROR"} THEN FALSE
+                ELSE openRun
   /\ UNCHANGED <<scn, case, phase, nviol, place, dead, lastSt, expectSt, inflight, critFault, critSeen, gates, finalSt, unclosed>>
 
 TGate ==
   /\ Line.ev = "Gate"
   /\ gates' = IF Line.op = "armed" THEN gates \cup {Line.point} ELSE gates \ {Line.point}
-  /\ UNCHANGED <<scn, case, phase, nviol, place, dead, lastSt, expectSt, inflight, critFault, critSeen, started, ended, finalSt, openTx, unclosed>>
+  /\ UNCHANGED <<scn, case, phase, nviol, place, dead, lastSt, expectSt, inflight, critFault, critSeen, started, ended, finalSt, openTx, unclosed, openRun>>
   /\ Keep
 
 \* end of the scenario's steps: the verdicts that need "nothing more will happen"
@@ -279,11 +286,11 @@ TEnd ==
   /\ nviol' = nviol
        + (IF phase = "run" /\ gates = {} /\ finalSt # "?"
             THEN Soft("ErrorReached", critFault => finalSt = "ERROR", <<finalSt, lastSt>>)
-               + Soft("RunEndRecorded", finalSt # "RUNNING" => started \subseteq ended, <<finalSt, started, ended>>)
+               + Soft("RunEndRecorded", finalSt # "RUNNING" => (started \subseteq ended /\ ~openRun), <<finalSt, started, ended, openRun>>)
                + Soft("RunEndClosed", unclosed = {}, unclosed)
             ELSE 0)
   /\ (IF Sync /\ phase = "run" /\ nsent # nrecv THEN Drift(<<"sent/received", nsent, nrecv>>) ELSE TRUE)
-  /\ UNCHANGED <<scn, case, place, dead, lastSt, expectSt, inflight, critFault, critSeen, gates, started, ended, finalSt, openTx, unclosed>>
+  /\ UNCHANGED <<scn, case, place, dead, lastSt, expectSt, inflight, critFault, critSeen, gates, started, ended, finalSt, openTx, unclosed, openRun>>
   /\ Keep
 
 TOther ==
@@ -299,7 +306,7 @@ TraceInit ==
   /\ budget = 0 /\ critHit = FALSE /\ critTouched = FALSE /\ excused = {}
   /\ l = 1 /\ scn = -1 /\ case = NoCase /\ phase = "ended" /\ nviol = 0
   /\ place = <<>> /\ dead = {} /\ lastSt = "?" /\ expectSt = "?" /\ inflight = "none" /\ critFault = FALSE /\ critSeen = FALSE
-  /\ gates = {} /\ started = {} /\ ended = {} /\ finalSt = "?" /\ openTx = {} /\ unclosed = {}
+  /\ gates = {} /\ started = {} /\ ended = {} /\ finalSt = "?" /\ openTx = {} /\ unclosed = {} /\ openRun = FALSE
   /\ mode = "lost" /\ w = "none" /\ lk = "none" /\ envM = "?" /\ reM = "norun" /\ srvErr = FALSE /\ nsent = 0 /\ nrecv = 0
 
 TraceNext ==
